@@ -1,25 +1,32 @@
 #!/bin/bash
 # Full .vo build of the Coq development (no -vos).  Usage:
 #   ./build.sh            build everything
-#   ./build.sh C20 C07    build only the files of these directories plus Props/<dir>.v (and their deps)
-# Serialised by a lock so concurrent invocations do not race on the generated Makefile.
+#   ./build.sh C20 C07    build only the files of these directories plus Props/<dir>*.v (and their deps)
+# A short global lock protects the generated _CoqProject/Makefile; the make itself takes one lock per requested
+# directory, so a slow build of one property does not block the others.  Every coqc is memory-limited.
 set -u
 cd "$(dirname "$0")"
-exec 9>.build.lock
-flock 9
-{
-  echo "-Q . SV"
-  find Common Props C[0-9][0-9] -name '*.v' 2>/dev/null | sort
-} > _CoqProject.new
-if ! cmp -s _CoqProject.new _CoqProject 2>/dev/null; then mv _CoqProject.new _CoqProject; coq_makefile -f _CoqProject -o Makefile >/dev/null 2>&1; else rm -f _CoqProject.new; [ -f Makefile ] || coq_makefile -f _CoqProject -o Makefile >/dev/null 2>&1; fi
+ulimit -v ${COQ_MEM_KB:-20000000} 2>/dev/null
+(
+  flock 9
+  {
+    echo "-Q . SV"
+    find Common Props C[0-9][0-9] -name '*.v' 2>/dev/null | grep -v -E '(_tmp|Dbg|scratch|Scratch)' | sort
+  } > _CoqProject.new
+  if ! cmp -s _CoqProject.new _CoqProject 2>/dev/null; then mv _CoqProject.new _CoqProject; coq_makefile -f _CoqProject -o Makefile >/dev/null 2>&1; else rm -f _CoqProject.new; [ -f Makefile ] || coq_makefile -f _CoqProject -o Makefile >/dev/null 2>&1; fi
+) 9>.build.lock
 if [ $# -eq 0 ]; then
+  exec 8>.build.lock.all
+  flock 8
   timeout ${BUILD_TIMEOUT:-3000} make -j${JOBS:-16} -k 2>&1
   exit $?
 fi
 targets=""
 for d in "$@"; do
-  for f in $(find "$d" -name '*.v' 2>/dev/null | sort); do targets="$targets ${f%.v}.vo"; done
-  [ -f "Props/$d.v" ] && targets="$targets Props/$d.vo"
+  for f in $(find "$d" -name '*.v' 2>/dev/null | grep -v -E '(_tmp|Dbg|scratch|Scratch)' | sort); do targets="$targets ${f%.v}.vo"; done
+  for f in $(ls Props/$d.v Props/${d}_*.v 2>/dev/null); do targets="$targets ${f%.v}.vo"; done
 done
 [ -z "$targets" ] && { echo "no targets for $*"; exit 2; }
-timeout ${BUILD_TIMEOUT:-3000} make -j${JOBS:-16} $targets 2>&1
+exec 8>".build.lock.$1"
+flock 8
+timeout ${BUILD_TIMEOUT:-1200} make -j${JOBS:-8} $targets 2>&1
